@@ -110,6 +110,7 @@ func contID(v interface{}) (uintptr, bool) {
 type location struct {
 	ok    bool
 	cont  uintptr
+	cid   int // stable number of the container (walk order), for messages and digests
 	key   string
 	idx   int
 	isMap bool
@@ -120,9 +121,9 @@ func (l location) String() string {
 		return "not-a-location"
 	}
 	if l.isMap {
-		return fmt.Sprintf("map@%x[%q]", l.cont, l.key)
+		return fmt.Sprintf("object#%d[%q]", l.cid, l.key)
 	}
-	return fmt.Sprintf("slice@%x[%d]", l.cont, l.idx)
+	return fmt.Sprintf("array#%d[%d]", l.cid, l.idx)
 }
 
 // c13State is the real document, the model, and the live accessors.
@@ -131,6 +132,7 @@ type c13State struct {
 	model   interface{}
 	twin    map[uintptr]interface{} // real container -> model container
 	realOf  map[uintptr]interface{} // real container id -> real container
+	cids    map[uintptr]int
 	accs    []jsonpath.Accessor
 	locs    []location
 	accPath []string
@@ -144,8 +146,9 @@ func (s *c13State) build(v interface{}) interface{} {
 		id, _ := contID(t)
 		s.twin[id] = m
 		s.realOf[id] = t
-		for k, e := range t {
-			m[k] = s.build(e)
+		s.cids[id] = len(s.cids) + 1
+		for _, k := range sortedKeys(t) {
+			m[k] = s.build(t[k])
 		}
 		return m
 	case []interface{}:
@@ -153,6 +156,7 @@ func (s *c13State) build(v interface{}) interface{} {
 		if id, ok := contID(t); ok {
 			s.twin[id] = a
 			s.realOf[id] = t
+			s.cids[id] = len(s.cids) + 1
 		}
 		for i, e := range t {
 			a[i] = s.build(e)
@@ -184,7 +188,7 @@ func (s *c13State) index() (byCont map[uintptr]location, byLeaf map[string]locat
 		case map[string]interface{}:
 			id, _ := contID(t)
 			for _, k := range sortedKeys(t) {
-				visit(t[k], location{ok: true, cont: id, key: k, isMap: true})
+				visit(t[k], location{ok: true, cont: id, cid: s.cids[id], key: k, isMap: true})
 				walk(t[k])
 			}
 		case []interface{}:
@@ -193,7 +197,7 @@ func (s *c13State) index() (byCont map[uintptr]location, byLeaf map[string]locat
 				return
 			}
 			for i, e := range t {
-				visit(e, location{ok: true, cont: id, idx: i})
+				visit(e, location{ok: true, cont: id, cid: s.cids[id], idx: i})
 				walk(e)
 			}
 		}
@@ -263,7 +267,7 @@ func runC13() *RunResult {
 	u := &uniq{}
 	t := &Task{id: 0}
 	w.tasks = []*Task{t}
-	st := &c13State{twin: map[uintptr]interface{}{}, realOf: map[uintptr]interface{}{}}
+	st := &c13State{twin: map[uintptr]interface{}{}, realOf: map[uintptr]interface{}{}, cids: map[uintptr]int{}}
 	st.real = u.doc(dg)
 	st.model = st.build(st.real)
 	snap := canon(st.real)
